@@ -52,10 +52,14 @@ Definition check_tag (s : tags) (n : Z) : res Z :=
   | Ok elems => Done (zlen (filter (fun e => e_num e =? n) elems))
   end.
 
-(* libwifi_set_beacon_ssid and its siblings: remove when the list is not empty, then quick-add *)
+(* libwifi_set_beacon_ssid and its siblings: count the old elements when the list is not empty, quick-add the
+   new one, then remove the first element with that number (the old one) if there was any *)
 Definition set_tag (s : tags) (num : Z) (data : list byte) : res (tags * Z) :=
-  let* '(s1, r) := (if t_len s =? 0 then Done (s, 0) else remove_tag s num) in
-  if r =? 0 then Done (quick_add_tag s1 num data) else Done (s1, r).
+  let* present := (if t_len s =? 0 then Done 0 else check_tag s num) in
+  if present <? 0 then Done (s, present) else
+  let '(s1, r) := quick_add_tag s num data in
+  if negb (r =? 0) then Done (s1, r) else
+  if 0 <? present then remove_tag s1 num else Done (s1, 0).
 Definition set_ssid (s : tags) (ssid : list byte) := set_tag s c_TAG_SSID ssid.
 Definition set_channel (s : tags) (ch : Z) := set_tag s c_TAG_DS_PARAMETER [ch].
 
